@@ -37,9 +37,10 @@ RULE = ("(a) corpus of shrunk past failures; (b) EXHAUSTIVE small scope: every s
         "deleteIfExists / plural-lookup / two with user annotations + x-koreo-compare-last-applied) and 2 ValueFunctions whose behaviour depends on inputs and on the "
         "current resource; cases mix inputOverrides (deep-merged), currentResource, overlayResource (static, "
         "resource- and input-dependent, failing), all four assertion kinds made true or false from an "
-        "instrumented run, variant/skip flags anywhere, at most one planned failing non-variant case, injected "
+        "instrumented run — true expectReturn/expectResource mostly rewritten to need x-koreo-compare-as-set / "
+        "-as-map (members permuted) — variant/skip flags anywhere, at most one planned failing non-variant case, injected "
         "inputs-overlay errors; every test is run as is, twice, as a single folded case, with passing cases' "
-        "assertion kinds swapped, and in up to 6 derived forms (variants removed / some removed / moved / "
+        "assertion kinds swapped, with a variant repeated in place sharing its expectation object, and in up to 6 derived forms (variants removed / some removed / moved / "
         "duplicated+inserted, skips removed, both removed); "
         "(d) direct streams for cel.functions._overlay and MockApi. A test is non-trivial when it has >=3 executed "
         "cases, >=1 variant or skip among them, and the threaded state changed at least once; distinct by content")
